@@ -446,14 +446,20 @@ where
         #[cfg(sos_verif)]
         sos_core::verif::probe("fs_log::replace_all::cleared");
 
-        // Apply the new events
-        self.patch_unchecked(&diff.patch).await?;
+        // Apply the new events; the event log was erased so a
+        // failure from here on must roll back like a failed
+        // verification does
+        let patched = self.patch_unchecked(&diff.patch).await;
         #[cfg(sos_verif)]
         sos_core::verif::probe("fs_log::replace_all::patched");
 
-        // Verify against the checkpoint
-        let computed = self.tree().head()?;
-        let verified = computed == diff.checkpoint;
+        // Verify against the checkpoint (an empty patch
+        // leaves a tree without a root that verifies nothing)
+        let computed = match &patched {
+            Ok(_) => self.tree().head().ok(),
+            Err(_) => None,
+        };
+        let verified = computed.as_ref() == Some(&diff.checkpoint);
 
         let mut rollback_completed = false;
         match (verified, &snapshot) {
@@ -474,10 +480,12 @@ where
             _ => {}
         }
 
+        patched?;
+
         if !verified {
             return Err(Error::CheckpointVerification {
                 checkpoint: diff.checkpoint.root,
-                computed: computed.root,
+                computed: computed.map(|c| c.root).unwrap_or_default(),
                 snapshot,
                 rollback_completed,
             }
